@@ -10,6 +10,23 @@ import traceback
 from harness import common
 
 
+def _argcov(ctx, prop):
+    """Argument-coverage units (harness/argcov.py, table harness/ARGCOV.md): every documented constructor / function parameter with
+    non-default values and the documented type variants, under the property's own oracle.  Its random stream is separate from the
+    module's (derived from the seed), so adding cases here never shifts the cases of the property's own units."""
+    import numpy as np
+
+    from harness import argcov
+
+    if prop not in argcov.PROPS:
+        return
+    rng, ctx.rng = ctx.rng, np.random.default_rng(np.random.PCG64(ctx.seed + 104729))
+    try:
+        argcov.run_units(ctx, prop)
+    finally:
+        ctx.rng = rng
+
+
 def main():
     ap = argparse.ArgumentParser()
     ap.add_argument("prop")
@@ -27,7 +44,21 @@ def main():
         if not a.no_build:
             ctx.build(getattr(mod, 'GROUPS', ()), getattr(mod, 'EXTRA_PROPS', ()))
         common.init_jax()
-        ok = mod.replay(ctx, case)
+        if str(case.get("sig", "")).startswith("argcov:"):
+            # a case of the argument-coverage units (harness/argcov.py): re-run them with the recorded seed and look for the same signature
+            import numpy as np
+
+            from harness import argcov
+
+            ctx.seed = int(case.get("seed", 0))
+            ctx.rng = np.random.default_rng(np.random.PCG64(ctx.seed))
+            argcov.run_units(ctx, prop)
+            hits = [v for v in ctx.violations if v["sig"] == case["sig"]]
+            for v in hits:
+                print("still failing:", v["what"][:300])
+            ok = not hits
+        else:
+            ok = mod.replay(ctx, case)
         print("REPLAY", "property holds on this case" if ok else "property FAILS on this case")
         sys.exit(0 if ok else 1)
     # watchdog: a change that makes the implementation hang or allocate without bound (seeded change C15e did, with a huge
@@ -57,6 +88,7 @@ def main():
         common.init_jax()
         if built:
             mod.run(ctx)
+            _argcov(ctx, prop)
             changed = ctx.changed_anchor_files() if ctx.quick and not ctx.violations else []
             if changed:
                 # the anchored source differs from the fingerprinted tree: second pass with a fresh seed (more cases, the other
@@ -67,6 +99,7 @@ def main():
                 ctx.seed = a.seed + 7919
                 ctx.rng = np.random.default_rng(np.random.PCG64(ctx.seed))
                 mod.run(ctx)
+                _argcov(ctx, prop)
         level = getattr(mod, "LEVEL", "proof")
         rc = ctx.finish(level=level, explanation=getattr(mod, "EXPLANATION", None))
     except Exception:
